@@ -76,7 +76,8 @@ def main(argv):
     from crosshair.core_and_libs import MessageType, analyze_function, run_checkables
     from crosshair.options import AnalysisOptionSet
 
-    from . import core, ctx
+    from . import core, ctx, lru
+    lru.install()  # lru_cache keeps its contract for caches of the code under analysis (CrossHair skips them)
 
     mod, hs = core.load_harnesses(prop)
     h = hs[hname]
